@@ -1,6 +1,6 @@
 from common import LEAN_TB
 
-CFG = {'lean_modules': ['ObiVerif.Props.C03'],
+CFG = {'lean_modules': ['ObiVerif.Props.C03', 'ObiVerif.Props.C03S'],
  'gen': False,
  'thorough_seeds': 8,
  'rule': 'cases = (combinator, parameters, input streams as arrival-ordered lists of numbered batches): random partitions of 0..40 records into 0..6 batches '
